@@ -113,12 +113,14 @@ def c02(run):
 
 def c03(run):
     run.rule = ("GEN: all sequences of <= N toplevel items (N=2 quick, 3 thorough) over named/unnamed blocks of two types with "
-                "22 body shapes (incl. empty children followed by non-empty siblings and a field preceding an unnamed child of the same key) (fields, re-assignment, TYPE/NAME, variables, nested blocks with colliding keys, a failing statement); "
+                "24 body shapes and two bind statements (incl. fields named TYPE/NAME, empty children followed by non-empty siblings and a field preceding an unnamed child of the same key) (fields, re-assignment, TYPE/NAME, variables, nested blocks with colliding keys, a failing statement); "
                 "compared: the []Block tree incl. Go dynamic types and the blocks returned with a runtime error. "
                 "Non-trivial = at least two block definitions; distinct by source text.")
     run.assumptions += ["programs never read a child block as a value nor assign a field named like an existing child key (undefined by the property)"]
     mc_chain(run, "blocks", 2)
     run.gen_replay("Gen_Prog", gen_cfg(dict(Scope="blocks", MaxItems=2 if run.quick else 3)), ["replay-prog"], "C03:blocks")
+    # blocks of two types around bind statements: a bind must leave the result list as it is
+    run.gen_replay("Gen_Prog", gen_cfg(dict(Scope="bindmany", MaxItems=5)), ["replay-prog"], "C03:with-binds")
     if not run.quick:
         run.gen_replay("Gen_Prog", gen_cfg(dict(Scope="scope", MaxItems=2)), ["replay-prog"], "C03:scope")
     tv_vm(run, "C03:vm", 500 if run.quick else 5000, seed_off=3)
@@ -132,7 +134,7 @@ def c04(run):
     mc_chain(run, "bind", 3)
     mc_chain(run, "bindmany", 5)
     run.gen_replay("Gen_Prog", gen_cfg(dict(Scope="bind", MaxItems=3 if run.quick else 4)), ["replay-prog"], "C04:bind")
-    run.gen_replay("Gen_Prog", gen_cfg(dict(Scope="bindmany", MaxItems=5 if run.quick else 6)), ["replay-prog"], "C04:bindmany")
+    run.gen_replay("Gen_Prog", gen_cfg(dict(Scope="bindmany", MaxItems=5 if run.quick else 6)), ["replay-prog"], "C04:bindmany")   # up to 3 binds
     tv_vm(run, "C04:vm", 500 if run.quick else 5000, seed_off=4)
     run.exhaustive = True
 
@@ -555,6 +557,8 @@ def c08(run):
         run.traces += n
         run.extra["diagnostics_located"] = (s.get("extra") or {}).get("diagnostics", 0)
     chk_comp(run, "C08:comp", 1200 if run.quick else 12000, ("diagloc-mismatch", "lfs-mismatch"), seed_off=8)
+    # sources beyond 128 kB: the diagnostic of an over-long short-circuit jump, location in closed form (offsets need 3-byte varints)
+    run.gen_replay("Gen_Total", cfg(constants=dict(Scope="scale", MaxLen=1), invariants=("Emit",)), ["replay-total"], "C08:limits")
     run.exhaustive = False
 
 
@@ -585,17 +589,19 @@ def c14(run):
 def c16(run):
     run.rule = ("GEN: bind cases (descriptor x block) with the specification's flag 'sens' = two or more failing entries or keys colliding on one field "
                 "(the inputs whose outcome depends on map order in an order-sensitive implementation), programs of the C02/C04 families and rejected token "
-                "strings with several diagnostics. Each call is repeated R times in one process (R=12 quick, 30 thorough): error text, target, dump bytes, output, "
+                "strings with several diagnostics. Each call is repeated R times in one process (R=6 quick, 30 thorough): error text, target, dump bytes, output, "
                 "diagnostics, blocks and binding must be identical, the dump must be unchanged by Execute and a second Execute must agree; then three fresh "
                 "processes with GOMAXPROCS 1, 4, 16 (one of them running the calls in the opposite order) must produce the same digest for every case; declared types of the same name with different tags are among the targets; every 3-read reader script must give ParseFile the single return class the pipeline model allows. Non-trivial = sens for bind cases, the family's rule otherwise.")
-    reps = 12 if run.quick else 30
+    reps = 6 if run.quick else 30
     import os
     digs = []
     stages = [("Gen_Bind", gen_cfg(dict(Scope="targets", MaxFields=2, Small=True)), "C16:bind-types", None),
               ("Gen_Bind", gen_cfg(dict(Scope="fields", MaxFields=2, Small=True)), "C16:bind", None),
               ("Gen_Prog", gen_cfg(dict(Scope="bind", MaxItems=3)), "C16:prog-bind", None),
               ("Gen_Prog", gen_cfg(dict(Scope="blocks", MaxItems=2)), "C16:prog-blocks", None),
-              ("Gen_Gram", gen_cfg(dict(Scope="recover", MaxLen=3), invariants=("EmitR",)), "C16:diagnostics", None)]
+              ("Gen_Gram", gen_cfg(dict(Scope="recover", MaxLen=3), invariants=("EmitR",)), "C16:diagnostics", None),
+              # programs at the implementation limits (stack / block overflow, division by zero ...) between ordinary ones: a failure must leave nothing behind
+              ("Gen_Total", cfg(constants=dict(Scope="scale", MaxLen=1), invariants=("Emit",)), "C16:limits", None)]
     if not run.quick:
         stages.append(("Gen_Gram", gen_cfg(dict(Scope="all", MaxLen=3)), "C16:tokens", None))
     for mod, c, stage, _ in stages:
@@ -610,7 +616,8 @@ def c16(run):
         if not r["ok"]:
             raise Inconclusive("generator failed in " + stage)
         d0 = path + ".dig0"
-        run.vh(["replay-det", "--reps", str(reps), "--digests", d0], stage + ":replay", input_path=path)
+        thin = ["--thin", "4"] if run.quick else []
+        run.vh(["replay-det", "--reps", str(reps), "--digests", d0] + thin, stage + ":replay", input_path=path)
         ref = sorted(open(d0).read().splitlines())
         for procs in (1, 4, 16):
             d = path + ".dig%d" % procs
@@ -618,7 +625,7 @@ def c16(run):
             env = dict(os.environ, GOMAXPROCS=str(procs))
             # the 4-CPU process runs the calls in the opposite order (no dependence on earlier calls in the process)
             extra = ["--reverse", "1"] if procs == 4 else []
-            pr = subprocess.run([exe, "replay-det", "--reps", "1", "--digests", d, "--in", path, "--result", path + ".r%d" % procs] + extra, env=env,
+            pr = subprocess.run([exe, "replay-det", "--reps", "1", "--digests", d, "--in", path, "--result", path + ".r%d" % procs] + extra + thin, env=env,
                                 stdout=subprocess.PIPE, stderr=subprocess.STDOUT, text=True)
             if pr.returncode != 0:
                 raise Inconclusive("digest worker failed: " + pr.stdout[-2000:])
